@@ -22,7 +22,7 @@ ASSUMPTIONS = [
     "masked: NBSP written as a character reference (the implementation replaces characters of the source text only)",
     "attribute and element names are compared as written (prefix:local); namespace declarations may move",
 ]
-REQUIRED = ["documents_with_internal_entities", "documents_after_the_rest_of_the_library_was_used", "library_modules_imported", "cross_mode_cases", "strings", "strings_with_nbsp", "documents", "documents_twice", "protected_segments", "normalised_segments", "attribute_values",
+REQUIRED = ["documents_starting_with_a_byte_order_mark", "documents_with_internal_entities", "documents_after_the_rest_of_the_library_was_used", "library_modules_imported", "cross_mode_cases", "strings", "strings_with_nbsp", "documents", "documents_twice", "protected_segments", "normalised_segments", "attribute_values",
             "xsi_attributes", "protected_nested_in_protected"]
 EXHAUSTIVE = {"quick": False, "thorough": False}
 
@@ -242,6 +242,10 @@ def run(ctx, params):
             if ent is not None:
                 text = ent
                 ctx.count("documents_with_internal_entities")
+        if i % 10 == 7:
+            # a file saved as "UTF-8 with BOM" and read back as text: the string starts with U+FEFF
+            text = "\ufeff" + text
+            ctx.count("documents_starting_with_a_byte_order_mark")
         try:
             again = xmlgen.read(text)
         except Exception as e:
